@@ -177,6 +177,9 @@ def run(pid, spec, tier):
             import bounded_standin
             import refdecode_standin
             out.append(refdecode_standin.run(pid, bounded_standin.build_replay))
+        elif name == "bounded_scalar_roundtrip":
+            import bounded_standin
+            out.append(bounded_standin.scalar_roundtrip(pid))
         elif name == "bounded_history_corpus":
             import bounded_standin
             out.append(bounded_standin.history_corpus(pid))
